@@ -50,9 +50,21 @@ func genC18(t *rapid.T, thorough bool) C18Case {
 		for i := 0; i < n; i++ {
 			c.Words = append(c.Words, gen.B(rapid.SliceOfN(rapid.SampledFrom([]byte("abc")), 1, 5).Draw(t, "word")))
 		}
+		if rapid.IntRange(0, 5).Draw(t, "longWord") == 3 {
+			ln := rapid.SampledFrom([]int{16, 17, 32, 33, 64, 65, 130}).Draw(t, "longLen")
+			long := bytes.Repeat([]byte("ab"), ln/2+1)[:ln]
+			c.Words = append(c.Words, gen.B(long), append(gen.B(bytes.Clone(long[:ln-1])), 'z'), append(gen.B(bytes.Clone(long[:ln/2])), 'y'))
+		}
 	case "canonical":
 		c.Seq = gen.B(rapid.SliceOfN(rapid.SampledFrom([]byte("ACGTacgtN")), 0, 40).Draw(t, "seq"))
 		c.K = rapid.IntRange(1, 6).Draw(t, "k")
+		if rapid.IntRange(0, 40).Draw(t, "longSeq") == 20 {
+			ln := rapid.SampledFrom([]int{5000, 20000, 40000, 70000}).Draw(t, "seqLen")
+			c.Seq = gen.B(bytes.Repeat(c.Seq, ln/max(len(c.Seq), 1)+1))
+			if len(c.Seq) == 0 {
+				c.Seq = gen.B(bytes.Repeat([]byte("ACGTN"), ln/5))
+			}
+		}
 	default:
 		format := c.Iter
 		if len(format) > 5 && format[len(format)-5:] == "-file" {
@@ -187,7 +199,31 @@ func checkC18(c C18Case, o *Obs) error {
 		fullSet[it.key()]++
 	}
 	stops := 0
+	// every stop position for N <= 400; for longer runs the positions around the ends, around
+	// powers of two (block sizes) and a regular sample
+	stopSet := map[int]bool{}
+	if N <= 400 {
+		for s := 1; s <= N; s++ {
+			stopSet[s] = true
+		}
+	} else {
+		for _, s := range []int{1, 2, 3, N / 2, N - 2, N - 1, N} {
+			stopSet[s] = true
+		}
+		for p := 256; p < N; p *= 2 {
+			for d := -1; d <= 1; d++ {
+				stopSet[p+d] = true
+			}
+		}
+		for s := 97; s < N; s += N / 23 {
+			stopSet[s] = true
+		}
+		o.Class("long run, sampled stop positions")
+	}
 	for s := 1; s <= N; s++ {
+		if !stopSet[s] {
+			continue
+		}
 		stops++
 		var seen []Item
 		calls, late := 0, 0
@@ -303,6 +339,15 @@ func exhaustiveC18(thorough bool, emit func(C18Case) bool) {
 		if !emit(C18Case{Iter: "foreach", Words: ws}) {
 			return
 		}
+	}
+	// long runs (more items than any internal block size)
+	for _, ln := range []int{1000, 16384 + 5, 40000, 70000} {
+		if !emit(C18Case{Iter: "canonical", Seq: gen.B(bytes.Repeat([]byte("ACGTNacgt"), ln/9+1)[:ln]), K: 3}) {
+			return
+		}
+	}
+	if !emit(C18Case{Iter: "preorder", Tree: gen.TreeSpec{Shape: "broom", N: 3, Fan: 70000}}) || !emit(C18Case{Iter: "postorder", Tree: gen.TreeSpec{Shape: "caterpillar", N: 20000}}) {
+		return
 	}
 	seqs := allSeqs([]byte("ACN"), 4)
 	sort.Slice(seqs, func(i, j int) bool { return len(seqs[i]) < len(seqs[j]) })
